@@ -81,6 +81,10 @@ func runC14(c *report.Ctx) {
 							c.OK(key, "len()", posOf(c, r))
 							continue
 						}
+						if b.Name() == "append" && paddedAppendLoop(p, x, u, ek) {
+							c.OK(key, "appended after a loop that appends 32-len(key) zero bytes (left-padded to 32)", posOf(c, r))
+							continue
+						}
 						if b.Name() == "copy" && x.Call.Args[1] == ssa.Value(u) {
 							if notPrivate(r) {
 								c.OK(key, "copy of a public key (fixed 33 bytes)", posOf(c, r))
@@ -99,7 +103,7 @@ func runC14(c *report.Ctx) {
 						}
 					}
 					if callee := x.Call.StaticCallee(); callee != nil {
-						if why, ok := okCallee[an.FuncKey(callee)]; ok {
+						if why, ok := okCallee[an.CanonKeyOf(callee)]; ok {
 							c.OK(key, why, posOf(c, r))
 							continue
 						}
@@ -176,10 +180,10 @@ func runC14(c *report.Ctx) {
 		ok := false
 		an.Instrs(f, func(in ssa.Instruction) {
 			call, isCall := in.(*ssa.Call)
-			if !isCall || call.Call.StaticCallee() == nil || an.FuncKey(call.Call.StaticCallee()) != "crypto/hmac.New" {
+			if !isCall || call.Call.StaticCallee() == nil || an.CanonKeyOf(call.Call.StaticCallee()) != "crypto/hmac.New" {
 				return
 			}
-			if h, isF := call.Call.Args[0].(*ssa.Function); isF && an.FuncKey(h) == "crypto/sha512.New" {
+			if h, isF := call.Call.Args[0].(*ssa.Function); isF && an.CanonKeyOf(h) == "crypto/sha512.New" {
 				d := p.Desc(call.Call.Args[1])
 				if (f == child && d == "ExtendedKey.chainCode") || (f == newMaster && d == "global:hdkeychain.masterKey") {
 					ok = true
@@ -462,4 +466,105 @@ func atomNilCmpOfCallErr(a an.Atom, f *ssa.Function) bool {
 	}
 	call, ok := ex.Tuple.(*ssa.Call)
 	return ok && call.Call.StaticCallee() == f
+}
+
+// paddedAppendLoop recognises the left-padding idiom written in line:
+//
+//	for i := 0; i < 32-len(k.key); i++ { dst = append(dst, 0) }
+//	dst = append(dst, k.key...)
+//
+// call is the final append of the key (load u of ExtendedKey.key): its destination is the loop-carried slice of a
+// counting loop whose bound is 32 - len(k.key) and whose body appends one zero byte; the call sits on the loop's exit.
+func paddedAppendLoop(p *an.Prog, call *ssa.Call, u *ssa.UnOp, ek *types.Named) bool {
+	if len(call.Call.Args) != 2 || call.Call.Args[1] != ssa.Value(u) {
+		return false
+	}
+	d, ok := call.Call.Args[0].(*ssa.Phi)
+	if !ok {
+		return false
+	}
+	h := d.Block()
+	ifi, ok := h.Instrs[len(h.Instrs)-1].(*ssa.If)
+	if !ok || len(h.Succs) != 2 || h.Succs[1] != call.Block() {
+		return false
+	}
+	cond, ok := ifi.Cond.(*ssa.BinOp)
+	if !ok || cond.Op != token.LSS {
+		return false
+	}
+	// the counter: phi(0, counter+1) in the header
+	ctr, ok := cond.X.(*ssa.Phi)
+	if !ok || ctr.Block() != h {
+		return false
+	}
+	zero, inc := false, false
+	for _, e := range ctr.Edges {
+		if k, isK := constInt(e); isK && k == 0 {
+			zero = true
+		} else if bo, isBo := e.(*ssa.BinOp); isBo && bo.Op == token.ADD && bo.X == ssa.Value(ctr) {
+			if k, isK := constInt(bo.Y); isK && k == 1 {
+				inc = true
+			}
+		}
+	}
+	if !zero || !inc {
+		return false
+	}
+	// the bound: 32 - len(k.key)
+	sub, ok := cond.Y.(*ssa.BinOp)
+	if !ok || sub.Op != token.SUB {
+		return false
+	}
+	if k, isK := constInt(sub.X); !isK || k != 32 {
+		return false
+	}
+	ln, ok := sub.Y.(*ssa.Call)
+	if !ok {
+		return false
+	}
+	if b, isB := ln.Call.Value.(*ssa.Builtin); !isB || b.Name() != "len" {
+		return false
+	}
+	if lu, isU := ln.Call.Args[0].(*ssa.UnOp); !isU || !isFieldLoad(lu, ek, "key") {
+		return false
+	}
+	// the body: dst = append(dst, 0)
+	pad := false
+	for _, e := range d.Edges {
+		ap, isCall := e.(*ssa.Call)
+		if !isCall || len(ap.Call.Args) != 2 || ap.Call.Args[0] != ssa.Value(d) {
+			continue
+		}
+		if b, isB := ap.Call.Value.(*ssa.Builtin); !isB || b.Name() != "append" {
+			continue
+		}
+		sl, isSl := ap.Call.Args[1].(*ssa.Slice)
+		if !isSl {
+			continue
+		}
+		al, isAl := sl.X.(*ssa.Alloc)
+		if !isAl {
+			continue
+		}
+		arr, isArr := al.Type().Underlying().(*types.Pointer).Elem().Underlying().(*types.Array)
+		if !isArr || arr.Len() != 1 {
+			continue
+		}
+		allZero := true
+		for _, r := range *al.Referrers() {
+			if ia, isIA := r.(*ssa.IndexAddr); isIA {
+				for _, rr := range *ia.Referrers() {
+					if st, isSt := rr.(*ssa.Store); isSt {
+						if k, isK := constInt(st.Val); !isK || k != 0 {
+							allZero = false
+						}
+					}
+				}
+			}
+		}
+		if allZero {
+			pad = true
+		}
+	}
+	return pad
 }
